@@ -379,7 +379,13 @@ def hadamard_sum(ts, algorithm="exact", eps=None):
 
         factor = c.permute(0, 2, 1)
         factor = torch.reshape(factor, [-1, factor.shape[-1]])
-        core = torch.zeros(factor.shape[1], factor.shape[1] + 1, factor.shape[0])
+        core = torch.zeros(
+            factor.shape[1],
+            factor.shape[1] + 1,
+            factor.shape[0],
+            dtype=c.dtype,
+            device=c.device,
+        )  # Same precision as the operand, whatever the default dtype
         core[:, 0, :] = factor.t()
         core = core.reshape(
             factor.shape[1] + 1, factor.shape[1], factor.shape[0]
@@ -429,7 +435,9 @@ def hadamard_sum(ts, algorithm="exact", eps=None):
     if algorithm == "exact":
         K = len(ts)
         N = ts[0].dim()
-        core = torch.ones(*[1] * K)
+        core = torch.ones(
+            *[1] * K, dtype=ts[0].cores[0].dtype, device=ts[0].cores[0].device
+        )
         for n in range(0, N):
             B = ts[0].shape[n]
             core = core[None, ...].repeat(B, *[1] * K)
